@@ -274,13 +274,24 @@ def encoded_captures(work, verdict, binary, tier, seed):
     log(run_driver(binary, base + ["-trace", trace]).strip())
     lines = read_ndjson(trace)
 
+    def with_params(rl):
+        """traces whose rules carry path_params: there the matched rule is a matter of C03's conditions too"""
+        out = set()
+        for ev in rl:
+            for r in ev.get("rules") or []:
+                if any(rt.get("params") for rt in r.get("routes") or []):
+                    out.add(ev.get("trace"))
+        return out
+
     def caps_only(rl, tag):
         out = set()
         for i, ch in enumerate(split_chunks(rl, 60000)):
             path = work.path("enc_chunk%s_%d.ndjson" % (tag, i))
             write_ndjson(path, ch)
             v = _judge(work, path, "_enc%s_%d" % (tag, i), module="EncodingTrace")
-            out |= {(t, off, why) for t, off, why in locate(ch, v["bad"]) if "captures" in why}
+            wp = with_params(ch)
+            out |= {(t, off, why) for t, off, why in locate(ch, v["bad"])
+                    if "captures" in why or ("matched-rule-differs" in why and t in wp)}
         return out
 
     rejected = caps_only(lines, "")
